@@ -19,7 +19,7 @@ if os.path.exists(p):
     na = json.load(open(p))
 checks = []
 have = set()
-for f in sorted(glob.glob(os.path.join(V, "manifest.d", "C*.json"))):
+for f in sorted(glob.glob(os.path.join(V, "manifest.d", "C[0-9][0-9].json"))):
     e = json.load(open(f))
     pid = os.path.basename(f)[:-5]
     c = dict(e["check"])
